@@ -18,10 +18,10 @@ import RTV.Gen.CharTables
   url.extract <cps>                          -> start:len:textcps:data;…  | err:Other   (BaseURLExtractor.extract)
   phone.extract <cps>                        -> start:len:textcps:data;…   (BasePhoneNumberExtractor.extract, English)
   spec.url <cps>                             -> typecps:start:end:textcps:valuecps;…   (recognize_url)
-  spec.seq <hashtag|mention|email|url|urlzh> <cps>  -> typecps:textcps:valuecps;…
-  spec.ip <en|zh> <cps>                      -> typecps:textcps:valuecps;…   (recognize_ip_address, runner fields)
-  spec.guid <cps>                            -> typecps:textcps:valuecps:scorecps;…
-  spec.bool <cps>                            -> typecps:textcps:0|1;…  | err:Other
+  spec.seq <hashtag|mention|email|url|urlzh> <cps>  -> typecps:start:end:textcps:keycps=valuecps,…;…  (whole ModelResult)
+  spec.ip <en|zh> <cps>                      -> the same   (recognize_ip_address)
+  spec.guid <cps>                            -> the same   (recognize_guid)
+  spec.bool <cps>                            -> the same | err:Other   (recognize_boolean; True/False, 0.0 as text)
 -/
 namespace RTV.Drv
 open RTV.Py RTV.Re RTV.Seq
@@ -112,31 +112,34 @@ def hSpecUrl : Handler
       s!"{showCps t}:{a}:{b}:{showCps x}:{showCps v}")
   | _ => "bad-op"
 
+/-- `typecps:start:end:textcps:keycps=valuecps,keycps=valuecps` -/
+def showEnt (e : SpecEnt) : String :=
+  s!"{showCps e.typeName}:{e.start}:{e.stop}:{showCps e.text}:" ++
+    ",".intercalate (e.res.map fun (k, v) => s!"{showCps k}={showCps v}")
+def showEnts (l : List SpecEnt) : String := ";".intercalate (l.map showEnt)
+
 def hSpecSeq : Handler
   | [w, s] =>
     let q := parseCps s
-    let rs := match w with
+    showEnts (match w with
       | "hashtag" => simpleModelRun genSeqEnv RTV.Gen.hashtagRegex (ofString "hashtag") q
       | "mention" => simpleModelRun genSeqEnv RTV.Gen.mentionRegex (ofString "mention") q
       | "email" => simpleModelRun genSeqEnv RTV.Gen.emailRegex (ofString "email") q
       | "urlzh" => urlSpecRun genSeqEnv true q
-      | _ => urlSpecRun genSeqEnv false q
-    ";".intercalate (rs.map fun (t, x, v) => s!"{showCps t}:{showCps x}:{showCps v}")
+      | _ => urlSpecRun genSeqEnv false q)
   | _ => "bad-op"
 
 def hSpecIp : Handler
-  | [w, s] => ";".intercalate ((ipModelRun genSeqEnv (w == "zh") (parseCps s)).map fun (t, x, v) =>
-      s!"{showCps t}:{showCps x}:{showCps v}")
+  | [w, s] => showEnts (ipModelRun genSeqEnv (w == "zh") (parseCps s))
   | _ => "bad-op"
 
 def hSpecGuid : Handler
-  | [s] => ";".intercalate ((guidModelRun genSeqEnv (parseCps s)).map fun (t, x, v, sc) =>
-      s!"{showCps t}:{showCps x}:{showCps v}:{showCps sc}")
+  | [s] => showEnts (guidModelRun genSeqEnv (parseCps s))
   | _ => "bad-op"
 
 def hSpecBool : Handler
   | [s] => match boolModelRun RTV.Choice.genEnv (parseCps s) with
-    | some rs => ";".intercalate (rs.map fun (t, x, v) => s!"{showCps t}:{showCps x}:{showBool v}")
+    | some rs => showEnts rs
     | none => "err:Other"
   | _ => "bad-op"
 
